@@ -376,7 +376,7 @@ def c03_order(m, run):
     tl = Tally(run, 'OT1.span-is-the-half-open-interval', 'helpers.find_span_linear',
                'degree 1..%d x n = p+1..p+%d x every clamped interior multiplicity pattern and the distinct-knot unclamped type x every parameter on a knot or strictly between knots of the domain' % (P, N))
     tb = Tally(run, 'OT1.span-is-the-half-open-interval', 'helpers.find_span_binsearch', tl.describe)
-    tm_ = Tally(run, 'OT2.multiplicity-count', 'helpers.find_multiplicity', tl.describe)
+    tm_ = Tally(run, 'OT2.multiplicity-count', 'helpers.find_multiplicity', tl.describe + '; every knot also approached from both sides within round-off')
     for p, n, ranks, u in cases:
         kv = [Ord(r) for r in ranks]
         if u == ranks[n]:
@@ -395,6 +395,10 @@ def c03_order(m, run):
             if out != wantm:
                 raise Violation('OT2', 'returned multiplicity %r, the knot occurs %d times' % (out, wantm))
         tm_.add((p, n, ranks, u), run1(m, 'helpers.find_multiplicity', [Ord(u), kv], {}, postm))
+        # a parameter that differs from a knot by round-off only (a NEAR rank) meets that knot through the tolerance: same count
+        if u in ranks:
+            for du in (1e-4, -1e-4):
+                tm_.add((p, n, ranks, u + du), run1(m, 'helpers.find_multiplicity', [Ord(u + du), kv], {}, postm))
     for t in (tl, tb, tm_):
         finish(t, 'geomdl/helpers.py')
     # the list variant returns, for every parameter of a list, the span the single-parameter search returns (sorted lists with
